@@ -67,7 +67,7 @@ class Gen:
             self.feat.add("attr-const")
             k = r.choice(sorted(ATTR_CONSTS))
             return ("attr", ATTR_CONSTS[k], f"{self.modname['c']}.{k}")
-        if x < 0.735:
+        if x < 0.724:
             self.feat.add("unbound-name")
             return ("var", r.choice([30, 31]))  # never bound: KeyError in the translator, NameError in Python
         return self.lit(pow2=divisor)
@@ -109,16 +109,16 @@ class Gen:
             self.feat.add("call")
             if self.funcs[j]["mod"] != sc["mod"]:
                 self.feat.add("call-other-module")
-            if r.random() < 0.05:
+            if r.random() < 0.025:
                 n = max(0, n + r.choice([-1, 1]))
                 self.feat.add("call-arity-mismatch")
             args = [self.expr(sc, d - 1, divisor) for _ in range(n)]
-            if r.random() < 0.04 and n >= 1:
+            if r.random() < 0.015 and n >= 1:
                 self.feat.add("call-keywords")
                 self.pure = False
                 return ("callkw", j, args)
             return ("call", j, args)
-        if x < 0.94:
+        if x < 0.903:
             return self.other_expr(sc, d)
         return self.leaf(sc, divisor)
 
@@ -149,7 +149,7 @@ class Gen:
     def cond(self, sc: dict, d: int) -> tuple:
         r = self.rng
         x = r.random()
-        if x < 0.04:
+        if x < 0.005:
             self.pure = False
             self.feat.add("unsupported-cond")
             c1 = self.src_cond(self.cmp(sc, 0), sc)
@@ -168,7 +168,7 @@ class Gen:
             op = r.choice(["Gt", "GtE", "Lt", "LtE", "Gt", "Lt", "CEq", "CNe"])
             if op in ("CEq", "CNe"):
                 self.feat.add("eq-ne")
-            if r.random() < 0.015:
+            if r.random() < 0.006:
                 op = "CmpOther"
                 self.pure = False
                 self.feat.add("unsupported-cmpop")
@@ -204,11 +204,11 @@ class Gen:
                     self._bind(sc, t)
             elif x < 0.82 and d > 0:
                 out.append(self.if_stmt(sc, d))
-            elif x < 0.86:
+            elif x < 0.85:
                 out.append(("pass",))
-            elif x < 0.90:
+            elif x < 0.858:
                 out.append(self.other_stmt(sc))
-            elif x < 0.97:
+            elif x < 0.996:
                 out.append(("return", self.expr(sc, 2)))
                 self.feat.add("early-return" if i < n - 1 else "return")
                 if r.random() < 0.7:
